@@ -32,15 +32,42 @@ def scene(rnd, n_est, n_gt, fpv):
     return est, gt
 
 
+TL = ["green", "red", "yellow", "unknown"]
+
+
+def scene2d(rnd, n_est, n_gt):
+    """2-D objects that carry a ROI (detection2d / tracking2d): traffic lights or ordinary labels, uuids set, one or two cameras"""
+    fam = rnd.choice(["traffic_light", "autoware"])
+    labs = TL if fam == "traffic_light" else LABELS
+    cams = ["cam_traffic_light"] if fam == "traffic_light" and rnd.random() < 0.7 else ["cam_front", "cam_back"]
+    mk = lambda i, score: dict(label=rnd.choice(labs), family=fam, roi=(rnd.choice([0, 40, 100, 300, 320]) + i, rnd.choice([0, 30, 200]) + 2 * i, rnd.choice([20, 50, 90]), rnd.choice([20, 60])),
+                               score=score, frame=rnd.choice(cams), uuid=str(i))
+    est = [mk(i, rnd.choice([0.2, 0.5, 0.9])) for i in range(n_est)]
+    gt = [mk(i, 1.0) for i in range(n_gt)]
+    rnd.shuffle(gt)       # the list order must not decide who is paired with whom
+    return est, gt
+
+
+def obj2d(d):
+    from perception_eval.common.object2d import DynamicObject2D
+    from perception_eval.common.schema import FrameID
+    return DynamicObject2D(0, FrameID.from_value(d["frame"]), d["score"], build.label(d["label"], family=d["family"]), roi=tuple(d["roi"]), uuid=d["uuid"])
+
+
 def run(case):
     from perception_eval.common.evaluation_task import EvaluationTask
     from perception_eval.evaluation.matching.object_matching import MatchingMode, MatchingLabelPolicy
     from perception_eval.evaluation.result.object_result import get_object_results
-    est = [build.obj3d(d) for d in case["est"]]
-    gt = [build.obj3d(d) for d in case["gt"]]
+    mk = obj2d if case.get("dim") == "2d" else build.obj3d
+    est = [mk(d) for d in case["est"]]
+    gt = [mk(d) for d in case["gt"]]
     e0, g0 = list(est), list(gt)
     tf = build.transforms(dict(x=0.0, y=0.0, yaw=0.0))
-    res = get_object_results(EvaluationTask(case["task"]), est, gt, target_labels=build.labels(case["targets"]),
+    if case.get("dim") != "2d" or case["targets"] is None:
+        targets = build.labels(case["targets"])
+    else:
+        targets = [build.label(n, family=case["est"][0]["family"] if case["est"] else "autoware").label for n in case["targets"]]
+    res = get_object_results(EvaluationTask(case["task"]), est, gt, target_labels=targets,
                              matching_label_policy=MatchingLabelPolicy(case["policy"]), matching_mode=MatchingMode(case["mode"]),
                              matchable_thresholds=case["radii"], transforms=tf)
     return est, gt, e0, g0, res, tf
@@ -132,6 +159,13 @@ def check(case):
 
 
 def gen_case(rnd):
+    if rnd.random() < 0.2:
+        est, gt = scene2d(rnd, rnd.randint(1, 4), rnd.randint(1, 4))
+        fam = est[0]["family"]
+        targets = rnd.choice([None, TL if fam == "traffic_light" else LABELS])
+        mode = rnd.choice(["Center Distance", "IoU 2D"])
+        radii = [rnd.choice([0.0, 0.05, 0.3] if mode.startswith("IoU") else [30.0, 100.0, 400.0]) for _ in targets] if targets and rnd.random() < 0.5 else None
+        return dict(dim="2d", task=rnd.choice(["detection2d", "tracking2d"]), est=est, gt=gt, targets=targets, policy=rnd.choice(["DEFAULT", "ALLOW_UNKNOWN", "ALLOW_ANY"]), mode=mode, radii=radii)
     fpv = rnd.random() < 0.3
     est, gt = scene(rnd, rnd.randint(0, 4), rnd.randint(0, 4), fpv)
     targets = rnd.choice([None, ["car", "pedestrian", "bicycle", "unknown", "truck"], ["car", "pedestrian"]])
